@@ -20,6 +20,7 @@ NORMALISATIONS = [
     'if DEBUG: block dropped (module binds DEBUG = False exactly once)',
     'import inside function dropped', 'annotation removed',
     'effectful comprehension -> explicit loop',
+    'return sum(e for v in it) -> acc = 0; for v in it: acc = acc + e; return acc',
 ]
 
 
@@ -203,6 +204,8 @@ class Repo:
         T().visit(info.node)
         n = _desugar_comprehensions(info.node)
         dropped['effectful comprehension -> explicit loop'] += n
+        n = _desugar_sum(info.node)
+        dropped['return sum(e for v in it) -> acc = 0; for v in it: acc = acc + e; return acc'] += n
         ast.fix_missing_locations(info.node)
         info.dropped = {k: v for k, v in dropped.items() if v}
 
@@ -249,6 +252,44 @@ def _desugar_comprehensions(fn):
                                orelse=[])
                 count += 1
                 return [ast.copy_location(init, node), ast.copy_location(loop, node)]
+            return node
+
+    D().visit(fn)
+    return count
+
+
+def _desugar_sum(fn):
+    """return sum(e for v in it)  ==>  $sum = 0; for v in it: $sum = $sum + e; return $sum
+    (the builtin starts from int 0 and adds the items in iteration order; only this form, with one `for`
+    clause and no `if`, is rewritten, and only when e contains a call: the counting idiom
+    `sum(1 for _ in gen())` is left alone)."""
+    count = 0
+
+    class D(ast.NodeTransformer):
+        def visit_FunctionDef(self, node):
+            return node if node is not fn else self.generic_visit(node)
+        visit_AsyncFunctionDef = visit_FunctionDef
+
+        def visit_Return(self, node):
+            nonlocal count
+            v = node.value
+            if isinstance(v, ast.Call) and isinstance(v.func, ast.Name) and v.func.id == 'sum' \
+                    and len(v.args) == 1 and not v.keywords and isinstance(v.args[0], ast.GeneratorExp) \
+                    and len(v.args[0].generators) == 1 and not v.args[0].generators[0].ifs \
+                    and not v.args[0].generators[0].is_async \
+                    and any(isinstance(c, ast.Call) for c in ast.walk(v.args[0].elt)):
+                g = v.args[0]
+                acc = '$sum'
+                init = ast.Assign(targets=[ast.Name(id=acc, ctx=ast.Store())], value=ast.Constant(value=0))
+                loop = ast.For(target=g.generators[0].target, iter=g.generators[0].iter,
+                               body=[ast.Assign(targets=[ast.Name(id=acc, ctx=ast.Store())],
+                                                value=ast.BinOp(left=ast.Name(id=acc, ctx=ast.Load()),
+                                                                op=ast.Add(), right=g.elt))],
+                               orelse=[])
+                ret = ast.Return(value=ast.Name(id=acc, ctx=ast.Load()))
+                count += 1
+                return [ast.copy_location(init, node), ast.copy_location(loop, node),
+                        ast.copy_location(ret, node)]
             return node
 
     D().visit(fn)
